@@ -107,6 +107,7 @@ func main() {
 		}
 		r := verifyFunction(P, SS, G, fn, con)
 		results = append(results, r)
+		r.Obls = filterProps(r.Obls, *prop)
 		obls = append(obls, r.Obls...)
 	}
 	// interface-method contracts: every implementing method must satisfy them
@@ -158,6 +159,7 @@ func main() {
 			}
 			r := verifyFunction(P, SS, G, m, con, "@as:"+parts[1])
 			results = append(results, r)
+			r.Obls = filterProps(r.Obls, *prop)
 			obls = append(obls, r.Obls...)
 		}
 	}
@@ -207,4 +209,25 @@ func firstLines(s string, n int) string {
 		ls = ls[:n]
 	}
 	return strings.Join(ls, "\n")
+}
+
+// filterProps keeps the obligations that serve the property (vacuity covers are
+// always kept).
+func filterProps(obls []*Obligation, prop string) []*Obligation {
+	if prop == "" || prop == "all" {
+		return obls
+	}
+	var out []*Obligation
+	for _, o := range obls {
+		keep := o.Expect == "sat"
+		for _, p := range o.Props {
+			if p == prop {
+				keep = true
+			}
+		}
+		if keep {
+			out = append(out, o)
+		}
+	}
+	return out
 }
